@@ -31,11 +31,15 @@ Kinds == {"LocalSetNew", "LocalSetChange", "LocalSetSame", "LocalSetAfterDelete"
           \* a write that installs a new version whose value string equals what the entry already stores:
           "LocalSetEmptyAfterDelete",   \* set(k, "") over a tombstone (which stores the empty string)
           "LocalSetTtlSameValue",       \* set_with_ttl(k, v) over a plain entry holding v
-          "ReplSameValueNewer"}         \* a newer replicated version carrying the same value (a -> b -> a seen as a -> a)
+          "ReplSameValueNewer",         \* a newer replicated version carrying the same value (a -> b -> a seen as a -> a)
+          \* the owner's copy is rebuilt from scratch by a resetting delta (from version 0, GC watermark above the
+          \* copy's frontier: state.rs reset_node); subscriptions are per node, not per copy, so they survive it:
+          "ReplResetCarried",           \* the newer value is carried by the resetting delta itself
+          "ReplAfterReset"}             \* the newer value arrives in an ordinary delta after the copy was reset
 Fires(kind) == kind \in {"LocalSetNew", "LocalSetChange", "LocalSetAfterDelete", "LocalSetTtlNew",
                          "ReplNewerSet", "ReplNewerTtl", "LocalSetEmptyAfterDelete", "LocalSetTtlSameValue",
-                         "ReplSameValueNewer"}
-Owner(kind) == IF kind \in {"ReplNewerSet", "ReplNewerTtl", "ReplTombstone", "ReplStale", "ReplSameValueNewer"} THEN "n2" ELSE "n1"
+                         "ReplSameValueNewer", "ReplResetCarried", "ReplAfterReset"}
+Owner(kind) == IF kind \in {"ReplNewerSet", "ReplNewerTtl", "ReplTombstone", "ReplStale", "ReplSameValueNewer", "ReplResetCarried", "ReplAfterReset"} THEN "n2" ELSE "n1"
 ValueOf(kind) == IF kind = "LocalSetEmptyAfterDelete" THEN "" ELSE "v1"
 
 VARIABLES subs,   \* sequence of [prefix, fate]
